@@ -4,22 +4,24 @@ SPEC = {
     "lean_project": "AgdbStorage",
     "props_module": "AgdbStorage.Props.C04",
     "audit_file": "AgdbStorage/Audit/C04.lean",
-    "full_theorems": [],
+    "full_theorems": ["C04_refines", "C04_read_back", "C04_removed_unreadable", "C04_frame", "C04_optimize", "C04_reopen", "C04_calls_wellformed", "C04_invariant"],
     "partial_theorems": [],
-    "counterexamples": [],
+    "counterexamples": ["C04_reopen_unbounded_counterexample"],
     "driver": "storagemodel",
     "harness_bin": "harness_storage",
-    "level": "other",
-    "level_text": ("Differential correspondence: the Lean model of the record allocator (Model/Storage.lean, function-for-function rendering of "
-                   "Storage<D>/StorageRecords) and the real Storage are run on the same generated histories (insert, insert_at incl. beyond end, "
-                   "replace, resize, move, remove, optimize, reopen, nested transactions) on all three back-ends; every result, record table, free list, "
-                   "emitted StorageData call and byte image is compared; independently an index->bytes reference map checks read-back, unreadability of "
-                   "removed values and compactness after optimize on the real code. The full-strength refinement statements (Props/C04.lean) are stated in "
-                   "Lean over all reachable states; theorems proved so far are listed in the evidence, the rest is stated but not yet proved — hence level `other`."),
-    "level_note": "Trusted: hand-written model validated by the st stream; reference map oracle; Lean kernel for the proved part.",
+    "level": "proof",
+    "level_text": ("Lean 4 refinement theorem C04_refines: from EVERY state reachable by any history of insert, insert_at (incl. beyond the end), replace, "
+                   "resize, move, remove, optimize, reopen and nested begin/commit, each operation of the record-allocator model (Model/Storage.lean, a function-for-function "
+                   "rendering of Storage<D>/StorageRecords incl. free-space selection, coalescing, in-place/move/at-end growth, shrink, defragmentation and re-reading the "
+                   "record table from bytes) has exactly the effect of the specification step on the map index -> bytes, fails exactly when the specification says so, and "
+                   "insert returns an unused non-zero index; corollaries C04_read_back, C04_removed_unreadable, C04_frame, C04_optimize (no unused space: len = 24 + sum(16+size), "
+                   "free list empty), C04_reopen. Proved through a layout invariant (SInv: slot table + free-index chain, live and free regions tile [24,len), headers on disk). "
+                   "The model is tied to the code on every run: real Storage on all three back-ends vs the model on generated histories, comparing every result, record table, "
+                   "free list, emitted StorageData call and byte image; an independent index->bytes reference map is the oracle."),
+    "level_note": "Trusted: Lean kernel; the hand-written model being faithful (validated, not verified, by the st stream); explicit hypotheses: data length < 2^64 and slot count <= 2^64 whenever the table is re-read from bytes (Fits; the statement without it is false of the unbounded-Nat model: C04_reopen_unbounded_counterexample). Back-end equivalence is C06.",
     "technique": "Lean 4 refinement proof (record allocator -> index-to-bytes map) + differential correspondence on all three back-ends",
     "design_ref": "DESIGN.md §6 C04",
-    "assumptions": [],
+    "assumptions": ["file length < 2^64 and number of record slots <= 2^64 at every reopen (u64 fields)", "version-0 (legacy) file upgrade path not modelled"],
     "quick": {"extra_args": []},
     "thorough": {"extra_args": []},
     "compare": "lines",
